@@ -277,6 +277,29 @@ func (g *G) hostileCtx(v vocab) *HCtx {
 			return c
 		}
 	}
+	if g.chance("ctxSpecial", 12) {
+		// NaN / +-Inf (deliverable over gRPC, not through JSON) for one or all parameters, the rest well-typed
+		c.Fields = map[string]any{"x": 1.0, "s": "a", "l": []any{1.0}, "m": map[string]any{"a": "b"}, "ip": "10.0.0.1", "u": 1.0, "d": 1.5, "du": "1h", "ts": "2024-01-01T00:00:00Z"}
+		kind := pickOf(g, "specialKind", []string{"nan", "nan", "inf", "-inf", "list-nan", "struct-nan"})
+		c.Special = map[string]string{}
+		if g.chance("specialAll", 30) {
+			for _, p := range append([]string{"x"}, v.params...) {
+				c.Special[p] = kind
+			}
+		} else {
+			c.Special[key] = kind
+		}
+		declared := map[string]bool{"x": true}
+		for _, p := range v.params {
+			declared[p] = true
+		}
+		for k := range c.Fields {
+			if c.Special[k] != "" || !declared[k] {
+				delete(c.Fields, k)
+			}
+		}
+		return c
+	}
 	switch g.n("ctxKind", 0, 6) {
 	case 0, 1:
 		c.Nest = []Nest{{Key: key, Depth: g.depth("ctxDepth", 2, 2000, 2000), Shape: pickOf(g, "ctxShape", []string{"struct", "list", "alt"}), Width: g.n("ctxWidth", 0, 2), Leaf: 1.0}}
@@ -324,6 +347,10 @@ func (g *G) plainCtx(v vocab) *HCtx {
 			c.Fields[p] = map[string]any{"a": "b"}
 		case "ip":
 			c.Fields[p] = "10.0.0.1"
+		case "du":
+			c.Fields[p] = "1h"
+		case "ts":
+			c.Fields[p] = "2024-01-01T00:00:00Z"
 		default:
 			c.Fields[p] = float64(g.n("ctxX", 0, 20))
 		}
@@ -408,6 +435,10 @@ func stdParams() []HParam {
 		{Name: lit("l"), T: HParamType{Name: 10, Generics: []HParamType{{Name: 4}}}},
 		{Name: lit("m"), T: HParamType{Name: 9, Generics: []HParamType{{Name: 3}}}},
 		{Name: lit("ip"), T: HParamType{Name: 11}},
+		{Name: lit("u"), T: HParamType{Name: 5}},
+		{Name: lit("d"), T: HParamType{Name: 6}},
+		{Name: lit("du"), T: HParamType{Name: 7}},
+		{Name: lit("ts"), T: HParamType{Name: 8}},
 	}
 }
 
